@@ -41,10 +41,11 @@ def main():
                                    timeout=900, cwd=tempfile.gettempdir())
                 out[tag] = r.returncode
         if a.tests:
-            t = subprocess.run(["/venv/bin/python", "-m", "pytest", "-q", "-p", "no:cacheprovider", "-n", "12", "tests", "tests_cffi",
+            t = subprocess.run(["/venv/bin/python", "-m", "pytest", "-q", "-ra", "-p", "no:cacheprovider", "-n", "12", "tests", "tests_cffi",
                                 "fuzz_tests/test_parsing.py"], cwd="/repo", env=dict(os.environ, PYTHONPATH=os.path.join(d, "src")),
                                capture_output=True, text=True)
             out["repo_tests"] = t.stdout.strip().splitlines()[-1] if t.stdout.strip() else t.stderr[-200:]
+            out["repo_tests_failed"] = [l[:200] for l in t.stdout.splitlines() if l.startswith(("FAILED", "ERROR"))][:5]
         for chk in a.checks:
             r = subprocess.run([os.path.join(VERIF, "vcheck"), chk, "--tier", a.tier], capture_output=True, text=True,
                                env=dict(os.environ, VERIF_REPO_SRC=os.path.join(d, "src"), VERIF_EVIDENCE_DIR=os.path.join(d, "evidence"), VERIF_SEED=a.seed))
